@@ -137,7 +137,12 @@ pub fn inputs_c04(r: &mut Rng, n: usize, _tier: &str, out: &mut dyn Write) {
             4 | 5 => {
                 // difference of two epochs, possibly in different (non dynamical) scales
                 let ts2 = if r.chance(1, 2) { ts } else { *r.pick(&NONDYN) };
-                let f = if r.chance(1, 2) { e + small_off(r) + ref_off(ts) - ref_off(ts2) } else { epoch_total(r, ts2) };
+                let f = match r.below(5) {
+                    0 | 1 => e + small_off(r) + ref_off(ts) - ref_off(ts2),
+                    // a difference of a whole number of 2^64 / 2^63 / 2^32 ns (+/- 1)
+                    2 => (e + ref_off(ts) - ref_off(ts2) + (*r.pick(&[-2i128, -1, 1, 2])) * (*r.pick(&[1i128 << 64, 1i128 << 63, 1i128 << 32])) + r.range_i64(-1, 1) as i128).clamp(DMIN, DMAX),
+                    _ => epoch_total(r, ts2),
+                };
                 writeln!(out, "ediff {}:{} {}:{}", dstr(e), ts, dstr(f), ts2).unwrap()
             }
             6 => writeln!(out, "eaddu {}:{} {}", dstr(e), ts, unit_name(r)).unwrap(),
@@ -535,8 +540,10 @@ pub fn inputs_c12(r: &mut Rng, n: usize, _tier: &str, out: &mut dyn Write) {
         let e = epoch_total(r, a);
         // second operand: same instant, a ns apart, symmetric about the reference, or unrelated
         let shift = ref_off(a) - ref_off(b);
-        let f = match r.below(8) {
+        let f = match r.below(9) {
             0 | 1 => e + shift,
+            // instants whose counts coincide once truncated to 64 / 63 / 32 bits
+            8 => e + shift + (*r.pick(&[-2i128, -1, 1, 2])) * (*r.pick(&[1i128 << 64, 1i128 << 63, 1i128 << 32])) + r.range_i64(-1, 1) as i128,
             2 => e + shift + r.range_i64(-2, 2) as i128,
             3 if a == b => -e,
             3 => e + shift + SEC * r.range_i64(-40, 40) as i128,
